@@ -422,6 +422,12 @@ func (s *Selection) SelectAShellWord() (bpos, epos int) {
 		}
 
 		s.cursor.Move(s.line.Backward(s.line.TokenizeSpace, s.cursor.Pos()))
+
+		// No previous word to expand to (eg. after an empty line).
+		if s.cursor.Pos() == mark {
+			break
+		}
+
 		mark = s.cursor.Pos()
 	}
 
@@ -436,6 +442,12 @@ func (s *Selection) SelectAShellWord() (bpos, epos int) {
 		}
 
 		s.cursor.Move(s.line.ForwardEnd(s.line.TokenizeSpace, cpos))
+
+		// No following word to expand to.
+		if s.cursor.Pos() == cpos {
+			break
+		}
+
 		cpos = s.cursor.Pos()
 	}
 
